@@ -216,6 +216,10 @@ def run_engine(prop, tier, seed, extra_args=None):
         cmd = [binary(cfg), "run", "--prop", prop, "--tier", tier, "--seed", str(seed),
                "--threads", os.environ.get("FCV_THREADS", str(os.cpu_count() or 16)), "--replay-dir", REPLAYS, "--out", frag_path,
                "--hang-secs", os.environ.get("FCV_HANG_SECS", "120")]
+        # saved inputs (the committed corpus of this property and engine): run before the generated cases
+        corpus_file = os.path.join(ROOT, "corpus", "%s.%s.txt" % (prop, "co" if cfg.endswith("+co") else "comb"))
+        if os.path.exists(corpus_file) and os.environ.get("FCV_NO_CORPUS") != "1":
+            cmd += ["--corpus", corpus_file]
         if extra_args:
             cmd += extra_args
         if os.environ.get("FCV_CASES"):
@@ -347,6 +351,21 @@ def fuzz_supplement(prop, seed):
     subprocess.run(["rm", "-rf", corpus, arts])
     os.makedirs(corpus)
     os.makedirs(arts)
+    # start from the saved inputs of this property (byte 0 is the profile selector, ignored in a
+    # single-property campaign); on a tree on which the property holds they are ordinary cases
+    n_seed = 0
+    cf = os.path.join(ROOT, "corpus", "%s.%s.txt" % (prop, "co" if target == "co" else "comb"))
+    if os.path.exists(cf):
+        for l in open(cf).read().splitlines():
+            tok = l.split("#")[0].split()
+            if tok:
+                try:
+                    data = b"" if tok[0] == "-" else bytes.fromhex(tok[0])
+                except ValueError:
+                    continue
+                with open(os.path.join(corpus, "seed-%04d" % n_seed), "wb") as fh:
+                    fh.write(b"\x00" + data)
+                n_seed += 1
     jobs = int(os.environ.get("FCV_FUZZ_JOBS", "8"))
     runs = int(os.environ.get("FCV_FUZZ_RUNS", "100000"))
     e = env()
@@ -373,7 +392,7 @@ def fuzz_supplement(prop, seed):
         if line.startswith("stat::new_units_added:"):
             new_units += int(line.split()[-1])
     info = {"target": target, "executions": execs, "new_units_added": new_units, "jobs": jobs, "wall_s": round(time.time() - t0, 1),
-            "sanitizer": "address", "config": "std"}
+            "sanitizer": "address", "config": "std", "seed_inputs_from_saved_corpus": n_seed}
     crashes = [f for f in os.listdir(arts) if f.startswith("crash-")]
     replay_path = None
     if crashes:
